@@ -118,6 +118,16 @@ func (m *model) runs(o int) int {
 	return n
 }
 
+func (m *model) appendKey(b []byte) []byte {
+	for k := range m.seg {
+		for _, h := range m.seg[k] {
+			b = append(b, byte('0'+int(h)))
+		}
+		b = append(b, ' ')
+	}
+	return b
+}
+
 func (m *model) String() string {
 	var sb strings.Builder
 	for k := range m.seg {
